@@ -9,6 +9,7 @@ TraceNext == /\ l <= Len(Trace) /\ l' = l + 1
                 \/ Ev.ev = "factor" /\ FactorOK(Ev)
                 \/ Ev.ev = "peval" /\ PlainEvalOK(Ev)
                 \/ Ev.ev = "pevalmod" /\ EvalModPOK(Ev)
+                \/ Ev.ev = "chebapx" /\ ChebApxOK(Ev)
 TraceInit == l = 1 /\ TLCSet(1, 1)
 TraceSpec == TraceInit /\ [][TraceNext]_l
 Progress == TLCSet(1, IF TLCGet(1) > l THEN TLCGet(1) ELSE l)
